@@ -82,6 +82,7 @@ class Fragment:
     wrap: str = None
     rewrites: tuple = ()
     canary: bool = True
+    attrs: str = None
 
 
 @dataclass
@@ -553,7 +554,7 @@ class UnitBuild:
         self.count('R9-cfg', kept + dropped)
         text, n = strip_macro_calls(text, LOG_MACROS)
         self.count('R9-log', n)
-        it = Item(fr.file, 'fn', fr.name, impl=fr.impl, wrap=fr.wrap, rewrites=fr.rewrites, canary=fr.canary)
+        it = Item(fr.file, 'fn', fr.name, impl=fr.impl, wrap=fr.wrap, rewrites=fr.rewrites, canary=fr.canary, attrs=fr.attrs)
         text = self.apply_rewrites(text, it)
         self.count('S-fragment', 1)
         self.emit_fn(it, fr.header + ' ' + text, line0)
